@@ -25,6 +25,11 @@ queued request, a request whose header does not become valid within 8 cycles, a 
 changes while it waits for `ready`, and `done` pulses that do not pair one-to-one with transfers (0..3 cycles after the
 transfer) are violations, each with its own mechanism name.
 
+Mutation results (quick tier): caught fields latched one cycle late (only visible when the header has to wait), STALL
+sent with ACK subtype, STALL dispatched to NRDY, live (unlatched) address / endpoint / retry, 4-bit sequence latch, 3-bit
+endpoint latch, sequence not latched in the ACK request cycle, address forced to 0 in NRDY, done asserted without
+transfer, header not held until ready, ready asserted while busy.
+
 Not judged: direction, number of packets, route string and every reserved bit (the statement does not name them and the
 interface has no input for them); retry and sequence for NRDY / ERDY / STALL (those packets have no such field); the
 subtype when two kinds are requested in the same cycle; endpoint numbers above 15 (the interface field is 7 bits wide, the
